@@ -71,6 +71,28 @@ Proof.
 Qed.
 Print Assumptions C16_schema.
 
+(* Any number of passes: on that class the text after n passes of Format - for EVERY n, n = 0 being the input itself - is read by
+   ReadFile as the very File the input states; the formatter can be applied again and again (bebopfmt -w run repeatedly over a tree)
+   without the schema drifting. *)
+Fixpoint format_passes (n : nat) (x : bytes) : option bytes :=
+  match n with
+  | O => Some x
+  | S k => match format x with POk y _ => format_passes k y | _ => None end
+  end.
+Definition C16_schema_iter_statement : Prop :=
+  forall dl lay tail n,
+    Forall sdefn_ok dl -> map snd lay = schema_lexemes dl -> Forall (fun p => hws (fst p)) lay -> sep_ok lay -> hws tail ->
+    exists y, format_passes n (render lay tail) = Some y /\ (exists s, read_file y false = POk (schema_file dl) s).
+Theorem C16_schema_iter : C16_schema_iter_statement.
+Proof.
+  intros dl lay tail n H1 H2 H3 H4 H5.
+  destruct (schema_laws dl lay tail H1 H2 H3 H4 H5) as (y & (s1 & Hf) & Hy & (s2 & Hi) & Hr & Hr0).
+  destruct n as [|n]; [exists (render lay tail); split; [reflexivity|exact Hr0]|].
+  exists y. split; [|exact Hr]. cbn [format_passes]. rewrite Hf. clear Hf s1 Hr0 Hr Hy.
+  induction n as [|n IH]; [reflexivity|]. cbn [format_passes]. rewrite Hi. exact IH.
+Qed.
+Print Assumptions C16_schema_iter.
+
 (* Outside the property (it quantifies over texts ReadFile accepts): on `struct A { int32 a` - no `;`, end of input - the
    formatter model never leaves its struct loop: it re-reads the kept token at every turn and only stops because the
    precomputed results run out (PEnd); the implementation, whose Next() keeps answering `false`, does not return (DESIGN.md
